@@ -39,30 +39,39 @@ type RExp struct {
 	Ke    *IExp  `json:"ke,omitempty"`
 }
 
+// LitElem is one operand of a composite literal with expression operands: the path of the component inside the
+// literal (field / element indices) and the expression stored there.
+type LitElem struct {
+	P []int `json:"p"`
+	R RExp  `json:"r"`
+}
+
 type SOp struct {
-	K     string   `json:"k"` // as op def mul muld app apps cp ms md lk2 call rcv as2
-	L     *LExp    `json:"l,omitempty"`
-	R     *RExp    `json:"r,omitempty"`
-	C     int      `json:"c,omitempty"`
-	X     int      `json:"x,omitempty"`
-	T     string   `json:"t,omitempty"` // type of the defined variable / of the appended slice
-	Ls    []LExp   `json:"ls,omitempty"`
-	Rs    []RExp   `json:"rs,omitempty"`
-	Xs    []int    `json:"xs,omitempty"`
-	Rd    []bool   `json:"rd,omitempty"`
-	Ts    []string `json:"ts,omitempty"`
-	IsDef bool     `json:"isdef,omitempty"`
-	S     *RExp    `json:"s,omitempty"`
-	Args  []RExp   `json:"args,omitempty"`
-	D     *RExp    `json:"d,omitempty"`
-	M     *LExp    `json:"m,omitempty"`
-	Ke    *IExp    `json:"ke,omitempty"`
-	Ok    int      `json:"ok,omitempty"`
-	Rdx   bool     `json:"rdx,omitempty"`  // lk2 in the := form: x is already declared in the scope (assigned, not created)
-	Rdok  bool     `json:"rdok,omitempty"` // … same for ok
-	Sel   *LExp    `json:"sel,omitempty"`
-	Succ  bool     `json:"succ,omitempty"` // as2: the assertion holds (the interface value holds R); otherwise it holds a string
-	Wrap  bool     `json:"wrap,omitempty"` // rendered inside an immediately called function literal
+	K     string    `json:"k"` // as op def mul muld app apps cp ms md lk2 call rcv as2 clit
+	L     *LExp     `json:"l,omitempty"`
+	R     *RExp     `json:"r,omitempty"`
+	C     int       `json:"c,omitempty"`
+	X     int       `json:"x,omitempty"`
+	T     string    `json:"t,omitempty"` // type of the defined variable / of the appended slice
+	Ls    []LExp    `json:"ls,omitempty"`
+	Rs    []RExp    `json:"rs,omitempty"`
+	Xs    []int     `json:"xs,omitempty"`
+	Rd    []bool    `json:"rd,omitempty"`
+	Ts    []string  `json:"ts,omitempty"`
+	IsDef bool      `json:"isdef,omitempty"`
+	S     *RExp     `json:"s,omitempty"`
+	Args  []RExp    `json:"args,omitempty"`
+	D     *RExp     `json:"d,omitempty"`
+	M     *LExp     `json:"m,omitempty"`
+	Ke    *IExp     `json:"ke,omitempty"`
+	Ok    int       `json:"ok,omitempty"`
+	Rdx   bool      `json:"rdx,omitempty"`  // lk2 in the := form: x is already declared in the scope (assigned, not created)
+	Rdok  bool      `json:"rdok,omitempty"` // … same for ok
+	Sel   *LExp     `json:"sel,omitempty"`
+	Elems []LitElem `json:"elems,omitempty"` // clit: the operands of the literal
+	Keyed bool      `json:"keyed,omitempty"` // clit: rendered with keys (omitted components are zero)
+	Succ  bool      `json:"succ,omitempty"`  // as2: the assertion holds (the interface value holds R); otherwise it holds a string
+	Wrap  bool      `json:"wrap,omitempty"`  // rendered inside an immediately called function literal
 }
 
 type Op struct {
@@ -249,6 +258,17 @@ func (o *SOp) sexp() string {
 		return fmt.Sprintf("(call %s %s %s %d %s)", b01(o.IsDef), o.L.sexp(), o.Sel.sexp(), o.C, o.R.sexp())
 	case "rcv":
 		return fmt.Sprintf("(rcv %s %s %s)", b01(o.IsDef), o.L.sexp(), o.R.sexp())
+	case "clit":
+		t := ty(o.T)
+		parts := make([]string, len(o.Elems))
+		for i := range o.Elems {
+			ps := make([]string, len(o.Elems[i].P))
+			for j, k := range o.Elems[i].P {
+				ps[j] = strconv.Itoa(k)
+			}
+			parts[i] = "((" + strings.Join(ps, " ") + ") " + o.Elems[i].R.sexp() + ")"
+		}
+		return fmt.Sprintf("(clit %s %s %s %s (%s))", b01(o.IsDef), o.L.sexp(), b01(t.K == "struct"), zero(t).sexp(), strings.Join(parts, " "))
 	case "as2":
 		return fmt.Sprintf("(as2 %s %d %d %s %s %s %s %s)", b01(o.IsDef), o.X, o.Ok, o.R.sexp(), b01(o.Succ), zero(ty(o.T)).sexp(), b01(o.Rdx), b01(o.Rdok))
 	}
@@ -278,7 +298,7 @@ func (o *SOp) binds() ([]int, []*Type) {
 			}
 		}
 		return xs, ts
-	case "app", "apps", "call", "rcv":
+	case "app", "apps", "call", "rcv", "clit":
 		if o.IsDef {
 			return []int{o.L.X}, []*Type{ty(o.T)}
 		}
@@ -448,6 +468,59 @@ func (r *render) rexp(x *RExp) string {
 	panic("bad rexp " + x.K)
 }
 
+func hasPrefix(p, prefix []int) bool {
+	if len(p) < len(prefix) {
+		return false
+	}
+	for i := range prefix {
+		if p[i] != prefix[i] {
+			return false
+		}
+	}
+	return true
+}
+
+// litText renders the component at `prefix` of a composite literal of type t whose expression operands are elems.
+func (r *render) litText(t *Type, prefix []int, elems []LitElem, keyed bool) string {
+	below := false
+	for i := range elems {
+		if hasPrefix(elems[i].P, prefix) {
+			if len(elems[i].P) == len(prefix) {
+				return r.rexp(&elems[i].R)
+			}
+			below = true
+		}
+	}
+	if !below || (t.K != "struct" && t.K != "array") {
+		return goLit(t, zero(t))
+	}
+	n := t.N
+	if t.K == "struct" {
+		n = len(t.Fields)
+	}
+	var parts []string
+	for i := 0; i < n; i++ {
+		ct := t.Elem
+		key := strconv.Itoa(i)
+		if t.K == "struct" {
+			ct, key = t.Fields[i].T, t.Fields[i].Name
+		}
+		sub := append(append([]int{}, prefix...), i)
+		given := false
+		for j := range elems {
+			given = given || hasPrefix(elems[j].P, sub)
+		}
+		switch {
+		case keyed && !given:
+		case keyed:
+			parts = append(parts, key+": "+r.litText(ct, sub, elems, keyed))
+		default:
+			parts = append(parts, r.litText(ct, sub, elems, keyed))
+		}
+	}
+	return t.Src + "{" + strings.Join(parts, ", ") + "}"
+}
+
 func (r *render) rexps(xs []RExp) string {
 	parts := make([]string, len(xs))
 	for i := range xs {
@@ -501,6 +574,8 @@ func (r *render) stmt(o *SOp) string {
 		s = "delete(" + r.lexp(o.M) + ", " + r.iexp(o.Ke) + ")"
 	case "lk2":
 		s = r.name(o.X) + ", " + r.name(o.Ok) + asg + r.lexp(o.M) + "[" + r.iexp(o.Ke) + "]"
+	case "clit":
+		s = r.dest(o.L) + asg + r.litText(ty(o.T), nil, o.Elems, o.Keyed)
 	case "rcv":
 		// the value travels through a buffered channel of its own
 		t := ty(o.T)
